@@ -78,7 +78,14 @@ TCrashed ==
   /\ ndiag' = ndiag + Diag("crashed", << "C02" >>, [what |-> Ev.what])
   /\ l' = l + 1 /\ UNCHANGED nunspec
 
-Next == TReset \/ TBytes \/ TCrashed
+\* the time bound was reached inside a URLPattern match on an arbitrary byte string (backtracking std::regex provider,
+\* not ada): the rest of the execution was not run; counted as unspecified
+TSkipped ==
+  /\ IsEvent("skipped")
+  /\ nunspec' = nunspec + 1
+  /\ l' = l + 1 /\ UNCHANGED ndiag
+
+Next == TReset \/ TBytes \/ TCrashed \/ TSkipped
 Spec == Init /\ [][Next]_vars
 
 Summary == PrintT("@@SUMMARY " \o ToJson([lines |-> N, consumed |-> TLCGet("stats").diameter - 1]))
